@@ -36,7 +36,7 @@ def run_demo(wt: str, demo_src: str) -> tuple[int, str]:
     d = tempfile.mkdtemp(prefix='n', dir=os.path.join(wt, '_seed'))
     try:
         src = open(demo_src).read()
-        src = re.sub(r"/tmp/wt[234]?/C\d\d", wt, src)
+        src = re.sub(r"/tmp/wt[2345]?/C\d\d", wt, src)
         src = src.replace('$PYMAP_WT', wt)
         p = os.path.join(d, 'test_seed_demo.py')
         open(p, 'w').write(src)
@@ -103,7 +103,7 @@ def main() -> int:
     dest = os.path.join(VERIF, 'seeded', sid)
     os.makedirs(dest, exist_ok=True)
     shutil.copy(patch, os.path.join(dest, 'patch.diff'))
-    src = re.sub(r"/tmp/wt[234]?/C\d\d", '$PYMAP_WT', open(demo).read())
+    src = re.sub(r"/tmp/wt[2345]?/C\d\d", '$PYMAP_WT', open(demo).read())
     open(os.path.join(dest, 'demo.py'), 'w').write(
         '# $PYMAP_WT = a checkout of pymap (tools/seedimport.py substitutes '
         'it)\n' + src)
